@@ -111,6 +111,15 @@ def check(ctx):
                     ref = ctx.call_func(I2, s2, "ref.preprocessing_ref.scaler_transform", Xt, mean, scale)
                     ctx.compare("NF-AFFINE", f"transform = (X - mean_) / scale_ [{cfg}]", N, t, ref, ctx.site(P.method(cls, "transform")), cfg)
                     ctx.no_shape_conflicts("Shape", f"transform on new data [{cfg}]", I, lo, ctx.site(P.method(cls, "transform")), cfg)
+                    # the copy mode does not change the result (and copy=True leaves the caller's array alone)
+                    for cp in (True, False):
+                        Xc = arr("Xt", "V", "M")
+                        loc_ = len(I.events)
+                        tc = ctx.call_method(I, st, o, "transform", Xc, copy=cp)
+                        ctx.compare("NF-AFFINE", f"transform(copy={cp}) = (X - mean_) / scale_ [{cfg}]", N, tc, ref, ctx.site(P.method(cls, "transform")), cfg)
+                        if cp:
+                            hits_ = [e for e in I.events[loc_:] if e["kind"] == "mutate" and ("in", "Xt") in e["target"].orig]
+                            ctx.ob("NF-AFFINE", f"transform(copy=True) does not write into the caller's array [{cfg}]", not hits_, f"in-place write: `{hits_[0].get('src')}`" if hits_ else "no write", ctx.site(P.method(cls, "transform")), cfg, nontrivial=False)
                     inv = ctx.call_method(I, st, o, "inverse_transform", t)
                     if ws and cw:
                         # column-wise scale: (X - m) dg(1/s) dg(s) + m
